@@ -25,7 +25,18 @@ from dask.array.percentile import _percentile
 from dask.backends import CreationDispatch, DaskBackendEntrypoint
 
 concatenate_lookup.register((object, np.ndarray), np.concatenate)
-take_lookup.register((object, np.ndarray, np.ma.masked_array), np.take)
+take_lookup.register((object, np.ndarray), np.take)
+
+
+@take_lookup.register(np.ma.masked_array)
+def _take_masked(a, indices, axis=None, **kwargs):
+    # np.take resets the fill value of a masked array
+    out = np.take(a, indices, axis=axis, **kwargs)
+    if isinstance(out, np.ma.masked_array) and isinstance(a, np.ma.masked_array):
+        out.fill_value = a.fill_value
+    return out
+
+
 tensordot_lookup.register((object, np.ndarray), np.tensordot)
 einsum_lookup.register((object, np.ndarray), np.einsum)
 empty_lookup.register((object, np.ndarray), np.empty)
